@@ -446,6 +446,10 @@ type soloSpec struct {
 	RemotePeer int       `json:"remote_peer"` // account whose transport peer id the real side is told it talks to
 	Script     []step    `json:"script"`      // behaviour of the scripted peer
 	Chunk      chunkSpec `json:"chunk"`
+	// Warm: before the run the real side's (long-lived) checker is shown this credentials frame as coming from
+	// transport peer WarmPeer - the connection the credentials were recorded on, which it accepts
+	Warm     hexBytes `json:"warm,omitempty"`
+	WarmPeer int      `json:"warm_peer,omitempty"`
 }
 
 type soloResult struct {
@@ -458,6 +462,7 @@ type soloResult struct {
 	CredPtr  *handshakeproto.Credentials // the pooled remote-credentials message the checker was handed
 	Seen     refCred                     // its contents at that moment
 	Checks   int
+	WarmOK   bool // the warm-up credentials were accepted
 }
 
 // spy forwards to the real checker and remembers which (pooled) message it was handed.
@@ -518,6 +523,13 @@ func (w *world) runSolo(ss soloSpec, pooled bool, rc any) *soloResult {
 		}
 		p.ends[ri].chunk = ss.Chunk.fn(ri)
 		sp := &spy{inner: ss.Real.checker()}
+		if len(ss.Warm) > 5 {
+			wc := &handshakeproto.Credentials{}
+			if err := wc.UnmarshalVT(ss.Warm[5:]); err == nil {
+				_, werr := sp.inner.CheckCredential(accts[ss.WarmPeer].peerId, wc)
+				r.WarmOK = werr == nil
+			}
+		}
 		ctx, cancel := context.WithTimeout(context.Background(), fakeDeadline)
 		defer cancel()
 		start := time.Now()
